@@ -141,14 +141,21 @@ def RH.init (c : RCfg) : RH c :=
 /-- `clear()` -/
 def RH.clear {c : RCfg} (_ : RH c) : RH c := RH.init c
 
-/-- `push_to_bucket(idx, value)` (and `emplace_in_bucket`: same effects) -/
-def RH.pushToBucket {c : RCfg} (h : RH c) (idx : Nat) (v : RVal c.w) : Option (RH c) := do
-  let enc := rankOfInt c v.1
+/-- the three statements shared by `push_to_bucket`, `emplace_in_bucket` and the body of the
+redistribution loop of `reorganize_()`:
+`if (buckets_data_[idx].empty()) filled_.set_bit(idx); buckets_data_[idx].push_back(x);
+ if (mins_[idx] > key) mins_[idx] = key;` -/
+def RH.insert {c : RCfg} (h : RH c) (idx : Nat) (x : RVal c.w) : Option (RH c) := do
+  let key := rankOfInt c x.1
   let b ← h.buckets[idx]?
   let filled ← if b.isEmpty then h.filled.setBit idx else some h.filled
   let m ← h.mins[idx]?
-  let mins := if m.toNat > enc.toNat then h.mins.set! idx enc else h.mins
-  pure { h with buckets := h.buckets.set! idx (b.push v), filled := filled, mins := mins, size := h.size + 1 }
+  let mins := if m.toNat > key.toNat then h.mins.set! idx key else h.mins
+  pure { h with buckets := h.buckets.set! idx (b.push x), filled := filled, mins := mins }
+
+/-- `push_to_bucket(idx, value)` (and `emplace_in_bucket`: same effects): the insertion, then `size_++` -/
+def RH.pushToBucket {c : RCfg} (h : RH c) (idx : Nat) (v : RVal c.w) : Option (RH c) :=
+  (h.insert idx v).map fun h' => { h' with size := h'.size + 1 }
 
 /-- `push(value)` / `emplace(key, …)`: returns the bucket index as well -/
 def RH.push {c : RCfg} (h : RH c) (v : RVal c.w) : Option (RH c × Nat) := do
@@ -163,38 +170,46 @@ def RH.getBucketKey {c : RCfg} (h : RH c) (k : BitVec c.w) : Nat := bucketOf c (
 /-- the redistribution loop of `reorganize_()` over `data_source` -/
 def RH.redistribute {c : RCfg} (h : RH c) : List (RVal c.w) → Option (RH c)
   | [] => some h
-  | x :: rest => do
-    let key := rankOfInt c x.1
-    let idx := bucketOf c key h.limit
-    let b ← h.buckets[idx]?
-    let filled ← if b.isEmpty then h.filled.setBit idx else some h.filled
-    let m ← h.mins[idx]?
-    let mins := if m.toNat > key.toNat then h.mins.set! idx key else h.mins
-    RH.redistribute { h with buckets := h.buckets.set! idx (b.push x), filled := filled, mins := mins } rest
+  | x :: rest =>
+    match h.insert (bucketOf c (rankOfInt c x.1) h.limit) x with
+    | none => none
+    | some h' => RH.redistribute h' rest
 
 /-- `reorganize_()` (precondition `!empty()`) -/
-def RH.reorganize {c : RCfg} (h : RH c) : Option (RH c) := do
-  if h.size = 0 then none
-  let bc ← h.buckets[h.cur]?
-  if !bc.isEmpty then return h
-  -- mark current bucket as empty
-  if h.cur ≥ h.mins.size then none
-  let mins := h.mins.set! h.cur (maxRank c.w)
-  let filled ← h.filled.clearBit h.cur
-  let first ← filled.findLsb
-  if first < c.radix then
-    return { h with mins := mins, filled := filled, cur := first }
-  -- update insertion limit
-  let newLimit ← mins[first]?
-  let src ← h.buckets[first]?
-  let h1 : RH c := { h with mins := mins, filled := filled, limit := newLimit }
-  let h2 ← RH.redistribute h1 src.toList
-  -- data_source.clear(); mark consumed bucket as empty
-  let filled2 ← h2.filled.clearBit first
-  let h3 : RH c := { h2 with buckets := h2.buckets.set! first #[],
-                             mins := h2.mins.set! first (maxRank c.w), filled := filled2 }
-  let cur ← h3.filled.findLsb
-  pure { h3 with cur := cur }
+def RH.reorganize {c : RCfg} (h : RH c) : Option (RH c) :=
+  if h.size = 0 then none else
+  match h.buckets[h.cur]? with
+  | none => none
+  | some bc =>
+    -- nothing do to if we already know a suited bucket
+    if !bc.isEmpty then some h else
+    if h.cur ≥ h.mins.size then none else
+    -- mark current bucket as empty
+    let mins := h.mins.set! h.cur (maxRank c.w)
+    match h.filled.clearBit h.cur with
+    | none => none
+    | some filled =>
+      -- find a non-empty bucket
+      match filled.findLsb with
+      | none => none
+      | some first =>
+        if first < c.radix then some { h with mins := mins, filled := filled, cur := first } else
+        -- update insertion limit, redistribute `data_source`
+        match mins[first]?, h.buckets[first]? with
+        | some newLimit, some src =>
+          match RH.redistribute { h with mins := mins, filled := filled, limit := newLimit } src.toList with
+          | none => none
+          | some h2 =>
+            -- data_source.clear(); mark consumed bucket as empty
+            match h2.filled.clearBit first with
+            | none => none
+            | some filled2 =>
+              let h3 : RH c := { h2 with buckets := h2.buckets.set! first #[],
+                                         mins := h2.mins.set! first (maxRank c.w), filled := filled2 }
+              match h3.filled.findLsb with
+              | none => none
+              | some cur => some { h3 with cur := cur }
+        | _, _ => none
 
 /-- `top()` -/
 def RH.top {c : RCfg} (h : RH c) : Option (RH c × RVal c.w) := do
